@@ -53,3 +53,61 @@ Proof.
 Qed.
 
 End Unused.
+
+(* ---- the other direction: a reported fragment is unreachable, when the closure iteration
+   did not fall short ---- *)
+Section Unused2.
+Variable W : wdoc.
+
+Lemma dedup_complete2 : forall l seen x, In x l -> In x seen \/ In x (dedup l seen).
+Proof.
+  induction l as [|y r IH]; intros seen x H; [destruct H|]. simpl.
+  destruct (nmem y seen) eqn:E.
+  - destruct H as [H|H]; [subst; left; apply nmem_in; exact E | apply IH; exact H].
+  - destruct H as [H|H]; [subst; right; left; reflexivity|].
+    destruct (IH (y :: seen) x H) as [[K|K]|K]; [subst; right; left; reflexivity | left; exact K | right; right; exact K].
+Qed.
+
+Lemma close_step_incl : forall seen x, In x seen -> In x (close_step W seen).
+Proof.
+  intros seen x H. unfold close_step.
+  destruct (dedup_complete2 (seen ++ flat_map (wfrag_spreads W) seen) [] x) as [[]|K]; [|exact K].
+  apply in_or_app. left. exact H.
+Qed.
+
+Lemma iter_incl : forall n seen x, In x seen -> In x (iter n (close_step W) seen).
+Proof.
+  induction n as [|n IH]; intros seen x H; simpl; [exact H|]. apply IH. apply close_step_incl. exact H.
+Qed.
+
+Lemma closure_complete : forall ss g,
+  closure_stable W ss = true -> Reach W (spread_names ss) g -> In g (closure_of W ss).
+Proof.
+  intros ss g Hst R. induction R as [g Hg|h g Rh IH Hg].
+  - unfold closure_of. apply iter_incl. destruct (dedup_complete2 (spread_names ss) [] g Hg) as [[]|K]. exact K.
+  - unfold closure_stable in Hst. rewrite forallb_forall in Hst. apply nmem_in. apply Hst.
+    apply in_flat_map. exists h. split; [exact IH | exact Hg].
+Qed.
+
+Theorem no_unused_fragments_sound :
+  closures_stable W = true ->
+  rule_no_unused_fragments W <> [] -> Violates_no_unused_fragments W.
+Proof.
+  intros Hst H. unfold rule_no_unused_fragments in H. apply flat_map_nonempty in H.
+  destruct H as [f [Hf H]]. exists f. split; [exact Hf|].
+  intros o Ho R. destruct (nmem (wf_name f) (used_fragments W)) eqn:E; [contradiction|].
+  apply nmem_not_in in E. apply E. unfold used_fragments. apply in_flat_map. exists o. split; [exact Ho|].
+  unfold referenced. apply filter_In. split.
+  - apply (closure_complete (wo_sel o) (wf_name f)); [|exact R].
+    unfold closures_stable in Hst. rewrite forallb_forall in Hst. apply Hst. exact Ho.
+  - assert (Hn : In (wf_name f) (map wf_name (w_frags W))) by (apply in_map; exact Hf).
+    destruct (fragw W (wf_name f)) eqn:Efw; [reflexivity|]. apply fragw_none in Efw. contradiction.
+Qed.
+
+Theorem no_unused_fragments_iff :
+  closures_stable W = true ->
+  (rule_no_unused_fragments W <> [] <-> Violates_no_unused_fragments W).
+Proof.
+  intro Hst. split; [apply no_unused_fragments_sound; exact Hst | apply no_unused_fragments_complete].
+Qed.
+End Unused2.
